@@ -481,6 +481,44 @@ def comprehension(models, eng, e, st, how):
                         continue
                 raise Untranslatable("dict comprehension copy of an unsupported mapping", e)
             return
+    # {k: v for k, v in P.items() if cond(k, v)} on a parameter object: the sub-mapping of the entries that satisfy cond
+    if how == "dict" and len(e.generators) == 1:
+        g0 = e.generators[0]
+        if (isinstance(g0.iter, ast.Call) and isinstance(g0.iter.func, ast.Attribute) and g0.iter.func.attr == "items"
+                and isinstance(g0.target, ast.Tuple) and len(g0.target.elts) == 2
+                and all(isinstance(x, ast.Name) for x in g0.target.elts)
+                and isinstance(e.key, ast.Name) and isinstance(e.value, ast.Name)
+                and e.key.id == g0.target.elts[0].id and e.value.id == g0.target.elts[1].id):
+            srcs = list(eng.ev(g0.iter.func.value, st))
+            if len(srcs) == 1 and isinstance(srcs[0][1], V) and isinstance(srcs[0][1].kind, Ref) and srcs[0][1].kind.cls == "Params":
+                st1, src = srcs[0]
+                from contracts.schema import P_HAS, P_VAL
+                has = eng.read_field(st1, src, "Params", "p_has", P_HAS).term
+                val = eng.read_field(st1, src, "Params", "p_val", P_VAL).term
+                k = z3.Const(fresh_name("ck"), z3.StringSort())
+                frame = {"__closure__": st1.frames[-1], g0.target.elts[0].id: V(STR, k),
+                         g0.target.elts[1].id: V(STR, z3.Select(val, k))}
+                conds = []
+                saved = eng.no_prune
+                eng.no_prune = True
+                try:
+                    for c in g0.ifs:
+                        st1.frames.append(frame)
+                        try:
+                            outs = list(eng.ev(c, st1))
+                        finally:
+                            st1.frames.pop()
+                        if len(outs) != 1:
+                            raise Untranslatable("dict comprehension filter must be pure and total", e)
+                        conds.append(eng.truth(outs[0][1], st1))
+                finally:
+                    eng.no_prune = saved
+                keep = z3.And(z3.Select(has, k), *conds) if conds else z3.Select(has, k)
+                newp = eng.new_object(st1, "Params", "subparams")
+                eng.write_field(st1, newp, "Params", "p_has", P_HAS, V(P_HAS, z3.Lambda([k], keep)))
+                eng.write_field(st1, newp, "Params", "p_val", P_VAL, V(P_VAL, val))
+                yield st1, newp
+                return
     gens = e.generators
     if any(g.is_async for g in gens):
         raise Untranslatable("async comprehension", e)
